@@ -70,7 +70,8 @@ class Report:
   def __init__(self, pid, tier):
     self.pid, self.tier = pid, tier
     self.t0 = time.time()
-    self.agg = dict(paths=0, aborted=0, solver_calls=0, solver_s=0.0, forks=0,
+    self.agg = dict(cvc5_unsat=0, cvc5_sat=0, cvc5_unknown=0, cvc5_error=0,
+                    paths=0, aborted=0, solver_calls=0, solver_s=0.0, forks=0,
                     concretised=0, unknown=0, final_queries=0, final_unsat=0,
                     final_sat=0, final_unknown=0, obligations=0, discharged=0,
                     nontrivial=0, jobs=0, jobs_exhaustive=0)
@@ -258,7 +259,10 @@ def write_evidence(mod, rep, tier, sd, wall, n_viol, n_known):
                       'final_unknown'],
                   final_queries=a['final_queries'], final_unsat=a[
                       'final_unsat'], final_sat=a['final_sat'],
-                  final_unknown=a['final_unknown']),
+                  final_unknown=a['final_unknown'],
+                  cvc5_crosscheck_of_final_unsat=dict(
+                      agree_unsat=a['cvc5_unsat'], disagree_sat=a['cvc5_sat'],
+                      unknown=a['cvc5_unknown'], error=a['cvc5_error'])),
       replays_on_real_code=rep.replays,
       conformance_runs=rep.conformance,
       known_findings_reproduced=n_known,
